@@ -105,20 +105,24 @@ pub fn sum_all(vs: &[Val]) -> Val {
     acc
 }
 
+/// The evaluation of the reading node stops at this read (cycle member).
+#[derive(Clone, Copy, Debug, PartialEq, Eq)]
+pub struct Abort;
+
 /// How an expression obtains the value of another node.
 pub trait Reader: Sync {
-    fn read(&self, n: u32) -> BoxFut<'_, Val>;
-    fn read_join(&self, ns: &[u32]) -> BoxFut<'_, Vec<Val>>;
-    fn read_unord(&self, ns: &[u32]) -> BoxFut<'_, Vec<Val>>;
+    fn read(&self, n: u32) -> BoxFut<'_, Result<Val, Abort>>;
+    fn read_join(&self, ns: &[u32]) -> BoxFut<'_, Result<Vec<Val>, Abort>>;
+    fn read_unord(&self, ns: &[u32]) -> BoxFut<'_, Result<Vec<Val>, Abort>>;
 }
 
-pub fn eval<'a, R: Reader>(e: &'a Expr, r: &'a R) -> BoxFut<'a, Val> {
+pub fn eval<'a, R: Reader>(e: &'a Expr, r: &'a R) -> BoxFut<'a, Result<Val, Abort>> {
     Box::pin(async move {
-        match e {
+        Ok(match e {
             Expr::Const(v) => v.clone(),
-            Expr::Read(n) => r.read(*n).await,
+            Expr::Read(n) => r.read(*n).await?,
             Expr::Idx(a, i) => {
-                let v = eval(a, r).await;
+                let v = eval(a, r).await?;
                 if v.is_empty() {
                     vec![0]
                 } else {
@@ -126,35 +130,35 @@ pub fn eval<'a, R: Reader>(e: &'a Expr, r: &'a R) -> BoxFut<'a, Val> {
                 }
             }
             Expr::Add(a, b) => {
-                let x = eval(a, r).await;
-                let y = eval(b, r).await;
+                let x = eval(a, r).await?;
+                let y = eval(b, r).await?;
                 zip_with(&x, &y, i64::wrapping_add)
             }
             Expr::Mul(a, k) => {
-                eval(a, r).await.iter().map(|x| x.wrapping_mul(*k)).collect()
+                eval(a, r).await?.iter().map(|x| x.wrapping_mul(*k)).collect()
             }
             Expr::Mod(a, k) => {
                 let k = if *k == 0 { 1 } else { k.abs() };
-                eval(a, r).await.iter().map(|x| x.rem_euclid(k)).collect()
+                eval(a, r).await?.iter().map(|x| x.rem_euclid(k)).collect()
             }
             Expr::Min(a, b) => {
-                let x = eval(a, r).await;
-                let y = eval(b, r).await;
+                let x = eval(a, r).await?;
+                let y = eval(b, r).await?;
                 zip_with(&x, &y, i64::min)
             }
             Expr::Cat(a, b) => {
-                let mut x = eval(a, r).await;
-                let y = eval(b, r).await;
+                let mut x = eval(a, r).await?;
+                let y = eval(b, r).await?;
                 x.extend(y);
                 x.truncate(6);
                 x
             }
             Expr::If(c, t, f) => {
-                let cv = eval(c, r).await;
-                if first(&cv) != 0 { eval(t, r).await } else { eval(f, r).await }
+                let cv = eval(c, r).await?;
+                if first(&cv) != 0 { eval(t, r).await? } else { eval(f, r).await? }
             }
-            Expr::Join(ns) => sum_all(&r.read_join(ns).await),
-            Expr::Unord(ns) => sum_all(&r.read_unord(ns).await),
-        }
+            Expr::Join(ns) => sum_all(&r.read_join(ns).await?),
+            Expr::Unord(ns) => sum_all(&r.read_unord(ns).await?),
+        })
     })
 }
